@@ -158,10 +158,84 @@ func advSrc(fam string, n int) (src string, run bool) {
 
 func runAdv(c *ctx, fam string, n int) {
 	src, run := advSrc(fam, n)
+	var expect []string
+	if src == "" {
+		src, expect = grpSrc(fam, n)
+		run = true
+	}
 	if src == "" {
 		return
 	}
+	c.expect = expect
 	c.process(input{Kind: "adv", Fam: fam, N: n, Run: run}, src, "adv", "adv/"+fam, nil, nil)
+	c.expect = nil
+}
+
+// grpSrc: programs that put, directly after (or around) each kind of multi-word group — SETLIST with
+// its block-number word, CLOSURE with its capture words, MOVEN with its continuation words — the
+// instructions patchCode's rewriting passes act on (a MOVE, a MOVE chain that merges into MOVEN, a
+// jump target, LOADNIL, another group), and whose result is known: the result is compared, so a
+// pass that mangles a data word is seen even where the mangled word is still structurally valid.
+// n = number of positional fields for the setlist families (> 25550 needs the extension word).
+func grpSrc(fam string, n int) (string, []string) {
+	items := func(v string, k int) string { return rep(k, func(int) string { return v }, ",") }
+	N := fmt.Sprint(n)
+	switch fam {
+	case "grp_setlist_move":
+		return "local t = {" + items("7", n) + "}\nlocal u = t\nreturn #u, u[" + N + "], u[" + fmt.Sprint(n+1) + "] == nil, u[-49] == nil\n",
+			[]string{N, "7", "true", "true"}
+	case "grp_setlist_moves":
+		return "local x, y = 1, 2\nlocal t = {" + items("7", n) + "}\nlocal a, b, c = x, y, x\nreturn #t, t[" + N + "], a, b, c\n",
+			[]string{N, "7", "1", "2", "1"}
+	case "grp_setlist_loadnil":
+		return "local t = {" + items("7", n) + "}\nlocal p, q\nlocal u = t\nreturn #u, u[" + N + "], p, q\n", []string{N, "7", "nil", "nil"}
+	case "grp_setlist_label":
+		return "local c = 0\nlocal t = {" + items("7", n) + "}\n::top::\nlocal u = t\nc = c + 1\nif c < 3 then goto top end\nreturn #u, u[" + N + "], c\n",
+			[]string{N, "7", "3"}
+	case "grp_setlist_if":
+		return "local x = 1\nlocal t\nif x then t = {" + items("7", n) + "} end\nlocal u = t\nlocal v, w = u, x\nreturn #v, v[" + N + "], w\n",
+			[]string{N, "7", "1"}
+	case "grp_setlist_loop":
+		return "local s = 0\nfor i = 1, 2 do\nlocal t = {" + items("7", n) + "}\nlocal u, j = t, i\ns = s + #u + j\nend\nreturn s\n",
+			[]string{fmt.Sprint(2*n + 3)}
+	case "grp_setlist_closure":
+		return "local t = {" + items("7", n) + "}\nlocal f = function() return t end\nlocal g = f\nreturn #g(), g()[" + N + "]\n", []string{N, "7"}
+	case "grp_setlist_twice":
+		return "local t = {" + items("7", n) + "}\nlocal u = {" + items("8", n+1) + "}\nlocal a, b = t, u\nreturn #a, #b, a[" + N + "], b[" + fmt.Sprint(n+1) + "]\n",
+			[]string{N, fmt.Sprint(n + 1), "7", "8"}
+	case "grp_setlist_open":
+		return "local function f() return 1, 2, 3 end\nlocal t = {" + items("7", n) + ", f()}\nlocal u = t\nreturn #u, u[" + fmt.Sprint(n+3) + "]\n",
+			[]string{fmt.Sprint(n + 3), "3"}
+	case "grp_setlist_arg":
+		return "local function f(a, b) return #a, b end\nlocal x = 5\nreturn f({" + items("7", n) + "}, x)\n", []string{N, "5"}
+	case "grp_closure_moves":
+		return "local a, b, c = 1, 2, 3\nlocal f = function() return a + b + c end\nlocal x, y, z = a, b, c\nreturn f(), x, y, z\n", []string{"6", "1", "2", "3"}
+	case "grp_closure_loadnil":
+		return "local a, b = 1, 2\nlocal f = function() return a + b end\nlocal p, q\nlocal r = a\nreturn f(), p, q, r\n", []string{"3", "nil", "nil", "1"}
+	case "grp_closure_label":
+		return "local fs, s = {}, 0\nfor i = 1, 3 do\nlocal j = i\nif i == 2 then goto cont end\nfs[#fs + 1] = function() return j end\n::cont::\nlocal k = j\ns = s + k\nend\nreturn #fs, fs[1](), fs[2](), s\n",
+			[]string{"2", "1", "3", "6"}
+	case "grp_closure_after_moves":
+		return "local a, b = 1, 2\nlocal x, y = a, b\nlocal f = function() return a + y end\nlocal z, w = x, y\nreturn f(), z, w\n", []string{"3", "1", "2"}
+	case "grp_closure_upvals":
+		return "local a, b = 1, 2\nlocal function l1()\nlocal c = 3\nlocal function l2()\nlocal f = function() return a + b + c end\nlocal x, y = c, c\nreturn f() + x + y\nend\nlocal p, q = c, c\nreturn l2() + p + q\nend\nreturn l1()\n",
+			[]string{"18"}
+	case "grp_closure_two":
+		return "local a, b = 1, 2\nlocal f = function() return a end\nlocal g = function() return a + b end\nlocal x, y = f, g\nreturn x() + y()\n", []string{"4"}
+	case "grp_moven_target":
+		return "local function p(...) return select('#', ...), ... end\nlocal a, b = 1, 2\nlocal n, r1, r2, r3, r4, r5 = p(a, b, (a and b), b, (nil or a))\nreturn n, r1, r2, r3, r4, r5\n",
+			[]string{"5", "1", "2", "2", "2", "1"}
+	case "grp_moven_loadnil":
+		return "local x, y, z = 1, 2, 3\nlocal a, b, c = x, y, z\nlocal p, q\nlocal d, e = a, b\nreturn a, b, c, p, q, d, e\n", []string{"1", "2", "3", "nil", "nil", "1", "2"}
+	case "grp_moven_loop":
+		return "local x, y, c = 1, 2, 0\nwhile c < 6 do\nlocal a, b, d = x, y, x\nc = c + a + b\nend\nrepeat\nlocal a, b = y, x\nc = c + a\nuntil c > 9\nreturn c\n", []string{"10"}
+	case "grp_moven_swap":
+		return "local a, b, c, d = 1, 2, 3, 4\na, b, c, d = d, c, b, a\nlocal e, f = a, b\nreturn a, b, c, d, e, f\n", []string{"4", "3", "2", "1", "4", "3"}
+	case "grp_moven_long":
+		return rep(n, func(i int) string { return fmt.Sprintf("local a%d = %d", i, i) }, "\n") + "\nlocal function f(...) return select('#', ...), (select(" + N + ", ...)) end\nreturn f(" +
+			rep(n, func(i int) string { return fmt.Sprintf("a%d", i) }, ", ") + ")\n", []string{N, N}
+	}
+	return "", nil
 }
 
 func adversarial(c *ctx, tier string) {
@@ -174,6 +248,18 @@ func adversarial(c *ctx, tier string) {
 		"nest_do": {100, 190, 250}, "nest_if": {100, 250}, "nest_while": {100, 250}, "nest_call": {60, 100, 250},
 		"concat": {50, 100, 198, 199, 200, 250}, "args": {100, 197, 198, 199, 250, 300}, "rets": {100, 197, 198, 199, 250, 300},
 		"assign_multi": {60, 100, 199}, "moves": {100, 190}, "protos": {300}, "elseif": {100, 1000}, "setlist_then_moves": {100},
+	}
+	for _, f := range []string{"grp_closure_moves", "grp_closure_loadnil", "grp_closure_label", "grp_closure_after_moves", "grp_closure_upvals",
+		"grp_closure_two", "grp_moven_target", "grp_moven_loadnil", "grp_moven_loop", "grp_moven_swap"} {
+		ladder[f] = []int{1}
+	}
+	ladder["grp_moven_long"] = []int{60, 90}
+	for _, f := range []string{"grp_setlist_move", "grp_setlist_moves", "grp_setlist_loadnil", "grp_setlist_label", "grp_setlist_if", "grp_setlist_loop",
+		"grp_setlist_closure", "grp_setlist_twice", "grp_setlist_open", "grp_setlist_arg"} {
+		ladder[f] = []int{120, 25551, 25553}
+		if tier == "thorough" {
+			ladder[f] = append(ladder[f], 25550, 25600, 25601, 25651)
+		}
 	}
 	big := map[string][]int{
 		"tablepos": {25500, 25550, 25551, 25601}, "tablepos_open": {25550, 25551}, "setlist_then_moves": {25551},
